@@ -35,6 +35,12 @@ def Wrap.scriptSig (w : Wrap) (ms : Bytes) (items : List Bytes) : Bytes :=
 /-- the witness -/
 def Wrap.wit (w : Wrap) (ms : Bytes) (items : List Bytes) : List Bytes := if w.witness then items ++ [ms] else []
 
+/-- what follows the solved items among the blobs the next pass reads: the pushed redeem script / the witness script -/
+def Wrap.extra (w : Wrap) (ms : Bytes) : List Bytes :=
+  match w with
+  | .bare => []
+  | _ => [ms]
+
 /-- how the stack the inner script leaves is judged -/
 def Wrap.verdict (w : Wrap) (flags : Flags) : Res (List Bytes) → Option ScriptError :=
   if w.witness then witnessVerdict else legacyVerdict flags
